@@ -221,7 +221,7 @@ func runCheck(args []string) int {
 				continue
 			}
 			seen[fn] = true
-			sp := P.specs[specKeyOf(fn)]
+			sp := P.bodySpecOf(fn)
 			if sp != nil && sp.Trusted {
 				continue
 			}
@@ -276,7 +276,7 @@ func runCheck(args []string) int {
 				continue
 			}
 			seen[fn] = true
-			sp := P.specs[specKeyOf(fn)]
+			sp := P.bodySpecOf(fn)
 			if sp != nil && sp.Trusted {
 				continue
 			}
